@@ -1042,7 +1042,8 @@ class ExtLib:
                 idx = tuple(psym("@%d" % i) for i in range(x.ndim))
                 return fx(idx) == fy(idx)
             return False
-        if isinstance(x, Arr) and is_scalar(y) and arr_valfn(x) is None:
+        if isinstance(x, Arr) and is_scalar(y) and (arr_valfn(x) is None or not str(x.alloc.how).startswith("derived")):
+            # (an allocated state array: what it holds when this code runs is not what it was allocated with)
             # a tolerance test of caller-supplied data against a constant: true for every array within atol of it, not only for
             # the array that equals it, so both outcomes are possible and the true outcome pins no element
             from .regions import CURRENT_CASE, NeedDecision
